@@ -408,6 +408,34 @@ theorem rebuild_after_history (e : Enforcer) (h : GSync e) :
   · intro dd x y
     exact synced_same_links d.arity rm' e.rm d.policy h2 hsync dd x y
 
+/-- **construction over a filtered adapter** (the model handed in already holds rules, regression for F22):
+the constructor does not load, keeps those rules and builds their links — the invariant holds from the start -/
+theorem newPrefilled_gsync (defs : Defs) (store : Store) (a : AdapterSt) (hf : a.filtered = true) (d : PolDef)
+    (hg : store.g = [d]) (ha : d.arity = 2 ∨ d.arity = 3) (hwf : WFRules d.arity d.policy)
+    (e : Enforcer) (r : Res) (h : Enforcer.newPrefilled defs store a = some (e, r)) :
+    r = .unit ∧ e.store = store ∧ GSync e := by
+  unfold Enforcer.newPrefilled at h
+  cases hn : Enforcer.newRaw defs store a with
+  | none => rw [hn] at h; cases h
+  | some e0 =>
+    rw [hn] at h
+    have hadp : e0.adapter = a := by
+      unfold Enforcer.newRaw at hn
+      split at hn
+      · cases hn
+      · simp only [Option.some.injEq] at hn; rw [← hn]
+    subst hadp
+    simp only [hf, if_true] at h
+    obtain ⟨rm', h1, h2, h3⟩ := rebuild_synced d.arity ha e0.rm d rfl hwf
+    have hb : Enforcer.buildRoleLinks { e0 with store := store } = ({ e0 with store := store, rm := rm' }, none) := by
+      unfold Enforcer.buildRoleLinks
+      simp only [hg, h1]
+    rw [hb] at h
+    simp only [Option.some.injEq, Prod.mk.injEq] at h
+    obtain ⟨he, hr⟩ := h
+    subst he hr
+    exact ⟨rfl, rfl, d, hg, ha, hwf, h2, h3⟩
+
 /-! ### Non-vacuity: two rules implying one link; removing one keeps it (regression for F14) -/
 
 def demoDef (pol : List Rule) : PolDef := { key := "g", tokens := [], arity := 2, policy := pol }
